@@ -73,6 +73,25 @@ class _Sub(ast.NodeTransformer):
             return clone_ast(self.env[n.id])
         return n
 
+    def visit_Attribute(self, n):
+        if isinstance(n.ctx, ast.Load):
+            try:
+                t = ast.unparse(n)
+            except Exception:
+                t = None
+            if t is not None and t in self.env:
+                return clone_ast(self.env[t])
+        return self.generic_visit(n)
+
+    def visit_IfExp(self, n):
+        self.generic_visit(n)
+        f = fold(n.test)
+        if f is True:
+            return n.body
+        if f is False:
+            return n.orelse
+        return n
+
     def _comp(self, n):
         b = set()
         for g in n.generators:
